@@ -114,10 +114,17 @@ theorem render_take_succ (bs : List Block) (m : Nat) (b : Block) (h : bs[m]? = s
 
 /-! ### Loading a prefix of a clean file -/
 
-def GoodR (c : RCfg) : Prop := c.shortHeaderIsEOF = true ∧ c.tornDataIsEOF = true ∧ c.shortFileIsEmpty = true
+/-- the reader treats a torn tail (short block header, short payload) as the end of the data -/
+def GoodR (c : RCfg) : Prop := c.shortHeaderIsEOF = true ∧ c.tornDataIsEOF = true
+
+/-- entries a load returns; an unreadable file yields none (`Load` logs the error and the swamp starts empty) -/
+def loadEntries (c : RCfg) (g : List Cell) : List Op :=
+  match loadFile c g with
+  | .ok es => es
+  | _ => []
 
 theorem stopOk_tailStop (c : RCfg) (hc : GoodR c) (r : Nat) : stopOk c (tailStop r) = true := by
-  obtain ⟨h1, h2, _⟩ := hc
+  obtain ⟨h1, h2⟩ := hc
   unfold tailStop
   split
   · rfl
@@ -182,17 +189,16 @@ theorem loadFile_base_tail (c : RCfg) (nl : Nat) (bs : List Block) (hwf : ∀ b 
     it contains.  The number of whole blocks is pinned down by the length. -/
 theorem loadFile_prefix_good (c : RCfg) (hc : GoodR c) (nl : Nat) (bs : List Block) (hwf : ∀ b ∈ bs, b.WF)
     (g : List Cell) (hg : g <+: fileCells nl bs) :
-    ∃ m, m ≤ bs.length ∧ loadFile c g = .ok (entsOf (bs.take m)) ∧
+    ∃ m, m ≤ bs.length ∧ loadEntries c g = entsOf (bs.take m) ∧
       ∀ sb : List Block, sb <+: bs → fileCells nl sb <+: g → sb.length ≤ m := by
   by_cases hlen : 64 + nl ≤ g.length
   · obtain ⟨m, hm, t, ht, htail⟩ := prefix_file_shape nl bs g hg hlen
     have hwfm : ∀ b ∈ bs.take m, b.WF := fun b hb => hwf b (List.mem_of_mem_take hb)
     refine ⟨m, hm, ?_, ?_⟩
     · rcases htail with h | ⟨b, r, hb, ht', _, hr1⟩
-      · subst h; rw [ht, List.append_nil]; exact loadFile_clean c nl _ hwfm
-      · rw [ht, ht', loadFile_base_tail c nl _ hwfm b (hwf b (List.mem_of_getElem? hb)) r hr1,
+      · subst h; rw [ht, List.append_nil]; simp [loadEntries, loadFile_clean c nl _ hwfm]
+      · rw [ht, ht']; simp [loadEntries, loadFile_base_tail c nl _ hwfm b (hwf b (List.mem_of_getElem? hb)) r hr1,
           stopOk_tailStop c hc r]
-        simp
     · intro sb hsb hpre
       apply Classical.byContradiction
       intro hcon
@@ -213,7 +219,7 @@ theorem loadFile_prefix_good (c : RCfg) (hc : GoodR c) (nl : Nat) (bs : List Blo
   · -- header or name incomplete: an empty swamp
     refine ⟨0, by simp, ?_, ?_⟩
     · by_cases h64 : g.length < 64
-      · simp [loadFile, headerOf_short g h64, hc.2.2, h64, entsOf]
+      · cases hs : c.shortFileIsEmpty <;> simp [loadEntries, loadFile, headerOf_short g h64, hs, h64, entsOf]
       · have hfh : fhCells nl <+: g := by
           apply List.prefix_of_prefix_length_le _ hg (by simp; omega)
           simp only [fileCells, List.append_assoc]; exact List.prefix_append _ _
@@ -225,7 +231,8 @@ theorem loadFile_prefix_good (c : RCfg) (hc : GoodR c) (nl : Nat) (bs : List Blo
         have hl : g2.length < nl := by
           simp only [List.length_append, fhCells_length] at hlen
           omega
-        simp only [loadFile, headerOf_file, hd, hl, if_true, hc.2.2, entsOf, List.take_zero, List.flatMap_nil]
+        cases hs : c.shortFileIsEmpty <;>
+          simp [loadEntries, loadFile, headerOf_file, hd, hl, hs, entsOf]
     · intro sb _ hpre
       have := hpre.length_le
       simp only [fileCells, List.length_append, fhCells_length, nmCells_length] at this
